@@ -171,7 +171,6 @@ theorem resolveNew_ok (env : Env) (ov ov0 : OvMap) (t : Str) (p : Plugin) (ov' :
     rw [hc]
     simp only
     split at h
-    · simp at h
     · rename_i ttv ho
       rw [ho]
       simp only
@@ -182,23 +181,18 @@ theorem resolveNew_ok (env : Env) (ov ov0 : OvMap) (t : Str) (p : Plugin) (ov' :
         obtain ⟨h1, h2⟩ := h
         subst h1; subst h2
         exact ⟨hp, fun _ _ => rfl⟩
-    · rename_i ho
-      rw [ho]
-      simp only
+    · rename_i hno
       split at h
       · simp at h
       · rename_i pl hp
         simp only [Except.ok.injEq, Prod.mk.injEq] at h
         obtain ⟨h1, h2⟩ := h
         subst h1; subst h2
-        refine ⟨hp, ?_⟩
-        intro t' hne
-        rw [mapGet_append]
-        cases hg : mapGet t' ov with
-        | some v => rfl
-        | none =>
-          have : ¬ t = t' := fun e => hne e.symm
-          simp [mapGet, this]
+        refine ⟨?_, fun t' hne => mapGet_mapPut_ne _ _ _ _ hne⟩
+        split
+        · rename_i ttv ho
+          exact absurd ho (hno ttv)
+        · exact hp
 
 /-- what a successful `getTargetInfo` establishes -/
 theorem getTargetInfo_ok (env : Env) (ov0 : OvMap) (st st1 : SetSt) (t : Str) (ti : TInfo)
@@ -485,6 +479,24 @@ theorem pathsValid_ok (ps : List Str) (h : pathsValid ps = .ok ()) : ∀ p ∈ p
       · subst h1; exact hv
       · exact ih h p h1
 
+theorem pathsUsable_ok (ps : List Str) (h : pathsUsable ps = .ok ()) :
+    ∀ p ∈ ps, isPathValid p = .ok true ∧ ∃ g, parsePath p = .ok g := by
+  induction ps with
+  | nil => simp
+  | cons a r ih =>
+    simp only [pathsUsable] at h
+    split at h
+    · simp at h
+    · simp at h
+    · rename_i hv
+      split at h
+      · simp at h
+      · rename_i g hg
+        intro p hp
+        rcases List.mem_cons.mp hp with h1 | h1
+        · subst h1; exact ⟨hv, g, hg⟩
+        · exact ih h p h1
+
 theorem mem_keys_foldl_put (rs : List Str) (v : PV) (m : List (Str × PV)) (x : Str) :
     x ∈ keys (rs.foldl (fun m p => mapPut p v m) m) ↔ x ∈ rs ∨ x ∈ keys m := by
   induction rs generalizing m with
@@ -505,7 +517,7 @@ theorem mem_keys_foldl_put (rs : List Str) (v : PV) (m : List (Str × PV)) (x : 
 /-- the change of a target holds exactly its update paths and its removes, all of them valid paths -/
 theorem computeChange_ok (ti : TInfo) (ch : List (Str × PV)) (h : computeChange ti = .ok ch) :
     (∀ p, p ∈ keys ch ↔ (p ∈ keys ti.updates ∨ p ∈ ti.removes)) ∧
-    (∀ p ∈ keys ch, isPathValid p = .ok true) := by
+    (∀ p ∈ keys ch, isPathValid p = .ok true ∧ ∃ g, parsePath p = .ok g) := by
   unfold computeChange at h
   split at h
   · simp at h
@@ -523,7 +535,7 @@ theorem computeChange_ok (ti : TInfo) (ch : List (Str × PV)) (h : computeChange
     refine ⟨hk, ?_⟩
     intro p hp
     have := (hk p).mp hp
-    apply pathsValid_ok _ hv
+    apply pathsUsable_ok _ hv
     rw [List.mem_append]
     rcases this with h1 | h1
     · exact Or.inl h1
@@ -625,8 +637,9 @@ theorem computeChange_length (ti : TInfo) (ch : List (Str × PV)) (h : computeCh
     simpa using this
 
 /-- what passing the GNMI_SET_SIZE_LIMIT block means, for the guards the translator read from `Set` -/
-theorem limitCheck_ok (limit : Int) (ts : List (Str × TInfo)) (h : limitCheck limit ts = .ok ()) (hl : limit > 0) :
-    ts.length = 1 ∧ ∀ t ∈ ts, (t.2.updates.length : Int) + (t.2.removes.length : Int) ≤ limit := by
+theorem limitCheck_ok (limit : Int) (nOps : Nat) (ts : List (Str × TInfo)) (h : limitCheck limit nOps ts = .ok ()) (hl : limit > 0) :
+    ts.length = 1 ∧ (nOps : Int) ≤ limit ∧
+    ∀ t ∈ ts, (t.2.updates.length : Int) + (t.2.removes.length : Int) ≤ limit := by
   unfold limitCheck at h
   have hon : Generated.setLimitOn limit = true := by simp [Generated.setLimitOn, hl]
   rw [hon] at h
@@ -637,14 +650,17 @@ theorem limitCheck_ok (limit : Int) (ts : List (Str × TInfo)) (h : limitCheck l
     split at h
     · simp at h
     · rename_i h2
-      simp only [Generated.setLimitTargetsGuard, ne_eq, decide_not, Bool.not_eq_true', decide_eq_false_iff_not,
+      simp only [Generated.setLimitTargetsGuard, ne_eq, decide_not, decide_eq_false_iff_not,
         Decidable.not_not, Bool.not_eq_eq_eq_not, Bool.not_true] at h1
-      refine ⟨by omega, ?_⟩
-      intro t ht
       simp only [List.any_eq_true, not_exists, not_and, Bool.not_eq_true] at h2
-      have := h2 t ht
-      simp only [Generated.setLimitOpsGuard, decide_eq_false_iff_not, Int.not_lt] at this
-      omega
+      have hall : ∀ t ∈ ts, (nOps : Int) ≤ limit ∧ (t.2.updates.length : Int) + (t.2.removes.length : Int) ≤ limit := by
+        intro t ht
+        have := h2 t ht
+        simp only [Generated.setLimitOpsGuard, Bool.or_eq_false_iff, decide_eq_false_iff_not, Int.not_lt] at this
+        omega
+      refine ⟨by omega, ?_, fun t ht => (hall t ht).2⟩
+      match ts, h1 with
+      | [t], _ => exact (hall t List.mem_cons_self).1
 
 theorem mem_pairs (tx : TxRecord) (t p : Str) :
     (t, p) ∈ tx.pairs ↔ ∃ ch, (t, ch) ∈ tx.changes ∧ p ∈ keys ch := by
@@ -667,8 +683,9 @@ structure Accepted (abs : Abs) (env : Env) (req : SetReq) (ov0 : OvMap) (tx : Tx
   pairs : ∀ t p, (t, p) ∈ tx.pairs ↔ ∃ op ∈ opsOf req, ∃ pl,
     pluginFor env ov0 t = some pl ∧ t = effTarget req.pfx (opTarget op) ∧ p ∈ opPaths abs pl req.pfx op
   targets : ∀ t, t ∈ keys tx.changes ↔ ∃ op ∈ opsOf req, t = effTarget req.pfx (opTarget op)
-  valid : ∀ tp ∈ tx.pairs, isPathValid tp.2 = .ok true
-  limit : env.limit > 0 → tx.changes.length = 1 ∧ ∀ tc ∈ tx.changes, (tc.2.length : Int) ≤ env.limit
+  valid : ∀ tp ∈ tx.pairs, isPathValid tp.2 = .ok true ∧ ∃ g, parsePath tp.2 = .ok g
+  limit : env.limit > 0 → tx.changes.length = 1 ∧ (req.nOps : Int) ≤ env.limit ∧
+    ∀ tc ∈ tx.changes, (tc.2.length : Int) ≤ env.limit
 
 theorem setPre_accepted (abs : Abs) (env : Env) (req : SetReq) (tx : TxRecord)
     (h : setPre abs env req = .ok tx) : ∃ ov0, Accepted abs env req ov0 tx := by
@@ -726,11 +743,11 @@ theorem setPre_accepted (abs : Abs) (env : Env) (req : SetReq) (tx : TxRecord)
                 obtain ⟨ti, _, hcc⟩ := hc1 t ch hm'
                 exact (computeChange_ok ti ch hcc).2 p hp
               · intro hl
-                obtain ⟨h1, h2⟩ := limitCheck_ok env.limit st.targets hlim hl
+                obtain ⟨h1, hn, h2⟩ := limitCheck_ok env.limit _ st.targets hlim hl
                 have hlen : chs.length = st.targets.length := by
                   have := congrArg List.length hk
                   simpa [keys] using this
-                refine ⟨by show chs.length = 1; omega, ?_⟩
+                refine ⟨by show chs.length = 1; omega, by simp only [SetReq.nOps]; omega, ?_⟩
                 rintro ⟨t, ch⟩ hm
                 obtain ⟨ti, hti, hcc⟩ := hc1 t ch hm
                 have hb := h2 (t, ti) hti
@@ -742,19 +759,18 @@ theorem setPre_accepted (abs : Abs) (env : Env) (req : SetReq) (tx : TxRecord)
 /-! ### what the per-operation checks mean -/
 
 theorem pluginFor_some (env : Env) (ov0 : OvMap) (t : Str) (pl : Plugin) (h : pluginFor env ov0 t = some pl) :
-    ∃ cfg, mapGet t env.topo = some (some cfg) ∧ mapGet t ov0 ≠ some none ∧
+    ∃ cfg, mapGet t env.topo = some (some cfg) ∧
       ((∃ ttv, mapGet t ov0 = some (some ttv) ∧ pluginGet (ttv.type, ttv.version) env.plugins = some pl) ∨
-       (mapGet t ov0 = none ∧ pluginGet (cfg.type, cfg.version) env.plugins = some pl)) := by
+       ((∀ ttv, mapGet t ov0 ≠ some (some ttv)) ∧ pluginGet (cfg.type, cfg.version) env.plugins = some pl)) := by
   unfold pluginFor at h
   split at h
   · rename_i cfg hc
     refine ⟨cfg, hc, ?_⟩
     split at h
     · rename_i ttv ho
-      exact ⟨by rw [ho]; simp, Or.inl ⟨ttv, ho, h⟩⟩
-    · simp at h
-    · rename_i ho
-      exact ⟨by rw [ho]; simp, Or.inr ⟨ho, h⟩⟩
+      exact Or.inl ⟨ttv, ho, h⟩
+    · rename_i hno
+      exact Or.inr ⟨fun ttv ho => hno ttv ho, h⟩
   · simp at h
 
 theorem findExact_ok (path : Str) (rw : List (Str × RWPath)) (b : Bool) (e : RWPath)
@@ -794,15 +810,64 @@ theorem findNonExact_ok (path : Str) (rw : List (Str × RWPath)) (b : Bool) (e :
         exact Or.inr ⟨rfl, hn, search, kv, hs, List.mem_of_find?_eq_some hf, by simpa using List.find?_some hf⟩
       · simp at h
 
-/-- a passing `CheckKeyValue` on a key leaf: some index of the path carries the leaf's name and value -/
-theorem checkKeyLoop_ok (rw : RWPath) (v : Str) (hk : rw.isAKey = true) :
-    ∀ (ns vs : List Str), checkKeyLoop rw v ns vs = .ok () →
-      ∃ nv ∈ ns.zip vs, nv.1 = rw.attrName ∧ nv.2 = v := by
+theorem ownIdx_ge (attr : Str) : ∀ (ns : List Str) (i l j : Nat), l ≤ i →
+    ownIdx attr i ns (some l) = some j → l ≤ j := by
   intro ns
   induction ns with
-  | nil => intro vs h; simp [checkKeyLoop] at h
+  | nil => intro i l j _ h; simp only [ownIdx, Option.some.injEq] at h; omega
   | cons n r ih =>
-    intro vs h
+    intro i l j hl h
+    simp only [ownIdx] at h
+    split at h
+    · have := ih (i + 1) i j (by omega) h; omega
+    · exact ih (i + 1) l j (by omega) h
+
+/-- `own` names an index that carries the attribute name … -/
+theorem ownIdx_spec (attr : Str) : ∀ (ns : List Str) (i : Nat) (last : Option Nat) (j : Nat),
+    ownIdx attr i ns last = some j → last = some j ∨ ∃ k, j = i + k ∧ ns[k]? = some attr := by
+  intro ns
+  induction ns with
+  | nil => intro i last j h; simp only [ownIdx] at h; exact Or.inl h
+  | cons n r ih =>
+    intro i last j h
+    simp only [ownIdx] at h
+    rcases ih (i + 1) _ j h with h1 | ⟨k, hk, hc⟩
+    · split at h1
+      · rename_i hn
+        simp only [Option.some.injEq] at h1
+        exact Or.inr ⟨0, by omega, by simp [hn]⟩
+      · exact Or.inl h1
+    · exact Or.inr ⟨k + 1, by omega, by simpa using hc⟩
+
+/-- … and no later index carries it: it is the key of the leaf's own (innermost) list entry -/
+theorem ownIdx_last (attr : Str) : ∀ (ns : List Str) (i : Nat) (last : Option Nat) (j : Nat),
+    ownIdx attr i ns last = some j → ∀ k, ns[k]? = some attr → i + k ≤ j := by
+  intro ns
+  induction ns with
+  | nil => intro i last j _ k hk; simp at hk
+  | cons n r ih =>
+    intro i last j h k hk
+    simp only [ownIdx] at h
+    cases k with
+    | zero =>
+      simp only [List.getElem?_cons_zero, Option.some.injEq] at hk
+      simp only [hk, if_true] at h
+      have := ownIdx_ge attr r (i + 1) i j (by omega) h
+      omega
+    | succ k =>
+      simp only [List.getElem?_cons_succ] at hk
+      have := ih (i + 1) _ j h k hk
+      omega
+
+/-- a passing `CheckKeyValue` loop on a key leaf: the value at position `own` is the leaf's value -/
+theorem checkKeyLoop_ok (rw : RWPath) (v : Str) (own : Option Nat) (hk : rw.isAKey = true) :
+    ∀ (ns vs : List Str) (i : Nat), checkKeyLoop rw v own i ns vs = .ok () →
+      ∃ k, own = some (i + k) ∧ vs[k]? = some v := by
+  intro ns
+  induction ns with
+  | nil => intro vs i h; simp [checkKeyLoop] at h
+  | cons n r ih =>
+    intro vs i h
     cases vs with
     | nil => simp [checkKeyLoop] at h
     | cons x xs =>
@@ -813,14 +878,14 @@ theorem checkKeyLoop_ok (rw : RWPath) (v : Str) (hk : rw.isAKey = true) :
       · split at h
         · rename_i hc
           simp only [hk, Bool.not_true, Bool.false_or, Bool.and_eq_true, decide_eq_true_eq] at hc
-          exact ⟨(n, x), by simp, hc.1.symm, hc.2⟩
-        · obtain ⟨nv, hm, h1⟩ := ih xs h
-          exact ⟨nv, by simp only [List.zip_cons_cons, List.mem_cons]; exact Or.inr hm, h1⟩
+          exact ⟨0, by simpa using hc.1, by simp [hc.2]⟩
+        · obtain ⟨k, h1, h2⟩ := ih xs (i + 1) h
+          exact ⟨k + 1, by rw [h1]; congr 1; omega, by simpa using h2⟩
 
 theorem checkKeyValue_ok (path : Str) (rw : RWPath) (v : Str) (hk : rw.isAKey = true)
     (h : checkKeyValue path rw v = .ok ()) :
     ∃ ns vs, extractIndexNames path = .ok (ns, vs) ∧
-      (ns = [] ∨ ∃ nv ∈ ns.zip vs, nv.1 = rw.attrName ∧ nv.2 = v) := by
+      (ns = [] ∨ ∃ k, ownIdx rw.attrName 0 ns none = some k ∧ vs[k]? = some v) := by
   unfold checkKeyValue at h
   split at h
   · simp at h
@@ -829,20 +894,8 @@ theorem checkKeyValue_ok (path : Str) (rw : RWPath) (v : Str) (hk : rw.isAKey = 
     split at h
     · rename_i hempty
       exact Or.inl (by simpa using hempty)
-    · exact Or.inr (checkKeyLoop_ok rw v hk ns vs h)
-
-/-- a passing `CheckKeyValue`: every index value that was looked at is over the allowed alphabet;
-    in particular the first one -/
-theorem checkKeyValue_first_index (path : Str) (rw : RWPath) (v : Str) (n : Str) (ns : List Str) (x : Str) (xs : List Str)
-    (he : extractIndexNames path = .ok (n :: ns, x :: xs)) (h : checkKeyValue path rw v = .ok ()) :
-    indexValueAllowed x = .ok true := by
-  unfold checkKeyValue at h
-  rw [he] at h
-  simp only [List.isEmpty_cons, Bool.false_eq_true, if_false, checkKeyLoop] at h
-  split at h
-  · simp at h
-  · simp at h
-  · rename_i hv; exact hv
+    · obtain ⟨k, h1, h2⟩ := checkKeyLoop_ok rw v _ hk ns vs 0 h
+      exact Or.inr ⟨k, by simpa using h1, h2⟩
 
 /-- a non-JSON update or replace that passes: its path, prefix included, is a key of the model's
     read-write table once its index values are wildcarded; the value converts; key leaves agree -/
